@@ -15,7 +15,7 @@ for d in seeded/${1:-*}/; do
   case "$out" in
     *rc=1) ;;
     *) case "$n" in
-         C10-6|C11-8|C15-8) echo "$n (documented in DESIGN 14.4: not caught by its own property's check)";;
+         C10-6|C15-8) echo "$n (documented in DESIGN 14.4: not caught by its own property's check)";;
          *) bad=1;;
        esac;;
   esac
